@@ -18,6 +18,7 @@ matter."""
 
 UNKNOWN = ("?",)
 IDENT = ("elem", ("sc", 1, ("c",)), ("lab", "t"))
+CAPACITY_ONLY = ("reserve", "reserve_exact", "shrink_to_fit", "shrink_to", "capacity", "len", "is_empty", "try_reserve")
 TRANSPARENT = ("deref", "deref_mut", "as_ref", "as_mut", "borrow", "borrow_mut", "clone", "into", "to_owned", "cloned",
                "copied", "by_ref", "as_slice", "as_mut_slice", "from", "rev", "unwrap", "expect")
 
@@ -313,6 +314,8 @@ class Eval:
             per_elem = mentions(el, "c") or mentions(el, "t")
             self.effect("APPEND" if per_elem else "PUSH", el)
             return ("unit",)
+        if name in CAPACITY_ONLY and a0 == ("selfterms",):
+            return ("unit",)      # capacity management: the terms themselves are untouched
         if name in TRANSPARENT and args:
             return a0
         # local functions: another operator impl, LinearCombination::push, helpers
